@@ -47,12 +47,15 @@ Definition a3_ok (s : schema) : bool :=
   (forallb plain_ident (map t_name s) && nodup_ci (map t_name s)
    && forallb (fun t => (forallb plain_ident (map c_name (t_columns t)) && nodup_ci (map c_name (t_columns t)))%bool) s)%bool.
 
-(* A5: auto-increment only on a single-column primary key of integer type *)
+(* A5: auto-increment only on a single-column primary key whose column exists.  The type need not support it: a
+   migration may retype the key column (integer -> varchar) while the constraint keeps auto_increment: true; CREATE
+   TABLE, MODIFY COLUMN and the believed catalog then all leave AUTO_INCREMENT out (supports_auto_increment), and the
+   engine refuses AUTO_INCREMENT on such a column (1063), so these migrations are judged *)
 Definition a5_ok (s : schema) : bool :=
   forallb (fun t =>
     forallb (fun k =>
       match k with
-      | CPrimaryKey true [c] => match col_type_of t c with Some ty => supports_auto_increment ty | None => false end
+      | CPrimaryKey true [c] => match col_type_of t c with Some _ => true | None => false end
       | CPrimaryKey true _ => false
       | _ => true
       end) (t_constraints t)) s.
